@@ -248,6 +248,12 @@ func c05IterPool(c *Ctx) {
 		if cc.IsInvoke() && cc.Method.Name() == "CatchWithPrimary" {
 			catchup = ci
 		}
+		// the backend's method bound to a function value (handed to a helper that was inlined) and called
+		if mc, isMC := cc.Value.(*ssa.MakeClosure); isMC {
+			if f := calleeOf(cc); f != nil && f.Name() == "CatchWithPrimary" && strings.HasSuffix(mc.Fn.Name(), "$bound") && f != fn.Object() {
+				catchup = ci
+			}
+		}
 		if f := cc.StaticCallee(); f != nil && f.Signature.Recv() != nil && strings.HasSuffix(f.Signature.Recv().Type().String(), "IteratorPool") {
 			switch f.Name() {
 			case "disable":
